@@ -35,16 +35,19 @@ CC_tsan     := clang
 CFLAGS_tsan := -O1 -g -fsanitize=thread
 CC_plain    := clang
 CFLAGS_plain := -O1 -g
+# cov: source coverage of the library under a check (bin/cover), to find branches no letter reaches
+CC_cov      := clang
+CFLAGS_cov  := -O0 -g -fprofile-instr-generate -fcoverage-mapping
 
 LDLIBS := -lpthread -lm -lpng -lz
 
-VARIANTS := asan asanx fast tsan plain
+VARIANTS := asan asanx fast tsan plain cov
 
 .SECONDEXPANSION:
 .SECONDARY:
 .PHONY: engine libs clean
 
-engine: $(foreach v,$(VARIANTS),$(B)/$(v)/mc.o)
+engine: $(foreach v,$(filter-out cov,$(VARIANTS)),$(B)/$(v)/mc.o)
 
 # src/pdc.c includes "../site_def.h", which configure generates (untracked,
 # git-ignored).  A scratch worktree does not have it: provide the pinned copy.
